@@ -117,9 +117,23 @@ func (e *Encoder) writeValue(val reflect.Value, tagType byte) error {
 					}
 				}
 			case reflect.Uint8:
-				data = val.Bytes()
+				if val.Kind() == reflect.Array {
+					data = make([]byte, n)
+					for i := range data {
+						data[i] = byte(val.Index(i).Uint())
+					}
+				} else {
+					data = val.Bytes()
+				}
 			case reflect.Int8:
-				data = unsafe.Slice((*byte)(val.UnsafePointer()), val.Len())
+				if val.Kind() == reflect.Array {
+					data = make([]byte, n)
+					for i := range data {
+						data[i] = byte(val.Index(i).Int())
+					}
+				} else {
+					data = unsafe.Slice((*byte)(val.UnsafePointer()), val.Len())
+				}
 			}
 			_, err := e.w.Write(data)
 			return err
